@@ -185,6 +185,28 @@ Proof.
 Qed.
 Print Assumptions C10_exact_values.
 
+(* Repeated resolution on one live graph (ComponentSpecification.resolveArguments, Job.resolveArguments,
+   Job.command.arguments called again and again while the producers rewrite, create or delete their
+   files): one file system per call.  Every answer of the session is the token-wise substitution with
+   the values the references have on the file system of ITS OWN call (None where the call raises: an
+   :output reference to a directory) - the contents a file had at an earlier call never show; the last
+   answer is what a single call on the last file system gives, whatever was resolved before. *)
+Theorem C10_exact_session : forall rs ps fss,
+  forallb (fun fs => separated_onb fs rs ps) fss = true ->
+  session rs (flatten ps) fss = map (fun fs => spec_on fs rs ps) fss /\
+  (forall args pre fs, List.last (session rs args (pre ++ [fs])) None = resolve_on fs rs args) /\
+  (forall fs, separated_onb fs rs ps = true ->
+     resolve_on fs rs (flatten ps) = spec_on fs rs ps /\
+     (forall ds, to_drefs fs rs = Some ds -> spec_on fs rs ps = Some (spec_own fs rs ps) /\ separated ds ps) /\
+     (to_drefs fs rs = None -> spec_on fs rs ps = None)).
+Proof.
+  intros rs ps fss H. split; [apply exact_session, H|]. split; [intros; apply session_last|].
+  intros fs S. split; [apply exact_on, S|]. unfold spec_on, separated_onb in *. split.
+  - intros ds D. rewrite D in *. split; [reflexivity|apply separatedb_sound, S].
+  - intros D. rewrite D. reflexivity.
+Qed.
+Print Assumptions C10_exact_session.
+
 (* ---- the hypothesis `separated` is decidable: the boolean checker evaluated on every case of the run
    is sound and complete.  (That none of its clauses can be dropped: Refuted.v, C10_*_clause_needed.) *)
 Theorem C10_separated_decidable : forall refs ps,
@@ -216,6 +238,13 @@ Definition ex_fs : fsys :=
 Definition ex_ps2 : list piece :=
   [ Tok "stage2.C:ref"; Lit " --in="; Tok "stage0.A:ref"; Lit "/f.txt "; Tok "stage1.A:ref"; Lit " n=";
     Tok "stage0.B/o.txt:output" ].
+Definition ex_fs2 : fsys :=
+  [ ("/I/stages/stage0/B", Dir); ("/I/stages/stage0/B/o.txt", File ("s/\s+/\1&/g" ++ String nl "")) ].
+Definition ex_fs3 : fsys := [ ("/I/stages/stage0/B", Dir) ].
+Definition ex_fs4 : fsys := [ ("/I/stages/stage0/B", Dir); ("/I/stages/stage0/B/o.txt", Dir) ].
+Definition ex_ps2' : list piece :=
+  [ Lit "--in="; Tok "stage0.A:ref"; Lit "/f.txt n="; Tok "stage0.B/o.txt:output"; Lit " "; Tok "AB:ref";
+    Lit " "; Tok "stage1.A:ref" ].
 Example C10_nonvacuous :
   separatedb ex_refs ex_ps = true /\ unambiguousb ex_refs ex_ps = true /\
   resolve_args ex_refs (flatten ex_ps) =
@@ -229,5 +258,14 @@ Example C10_nonvacuous :
   unused_refs ex_refs (flatten ex_ps2) = ["stage1.AB:ref"] /\
   unresolved (resolve_args ex_refs (flatten ex_ps2)) = true /\
   (* the same references as they are declared, their values computed by the model of resolve *)
-  to_drefs ex_fs ex_srefs = Some ex_refs.
+  to_drefs ex_fs ex_srefs = Some ex_refs /\
+  (* a session on that component: the producer rewrites o.txt (backslashes, '&', a group reference: put in
+     verbatim), deletes it, makes a directory of it *)
+  forallb (fun fs => separated_onb fs ex_srefs ex_ps2') [ex_fs; ex_fs2; ex_fs3; ex_fs4] = true /\
+  session ex_srefs (flatten ex_ps2') [ex_fs; ex_fs2; ex_fs3; ex_fs4; ex_fs] =
+    [ Some "--in=/I/stages/stage0/A/f.txt n=42 /I/stages/stage1/AB /I/stages/stage1/A";
+      Some "--in=/I/stages/stage0/A/f.txt n=s/\s+/\1&/g /I/stages/stage1/AB /I/stages/stage1/A";
+      Some "--in=/I/stages/stage0/A/f.txt n= /I/stages/stage1/AB /I/stages/stage1/A";
+      None;
+      Some "--in=/I/stages/stage0/A/f.txt n=42 /I/stages/stage1/AB /I/stages/stage1/A" ].
 Proof. vm_compute. repeat split; reflexivity. Qed.
